@@ -33,6 +33,20 @@ func main() {
 		}
 		return
 	}
+	if len(os.Args) > 1 && os.Args[1] == "anchors" {
+		// fingerprints of the declared functions of /repo's current tree (rename robustness, core/anchors.go)
+		repo := "/repo"
+		if len(os.Args) > 2 {
+			repo = os.Args[2]
+		}
+		p, err := core.Load(repo, "amd64")
+		if err != nil {
+			fmt.Fprintln(os.Stderr, err)
+			os.Exit(2)
+		}
+		os.Stdout.Write(p.Anchors())
+		return
+	}
 	if len(os.Args) > 1 && os.Args[1] == "manifest" {
 		manifest()
 		return
@@ -91,6 +105,9 @@ func run(prop, tier, repo, verif string, verbose, noEvidence bool) (code int) {
 		p, err := core.Load(repo, arch)
 		if err != nil {
 			return analysisFailed("cannot load/type-check " + repo + " for " + arch + ": " + err.Error())
+		}
+		for _, n := range p.Notes {
+			fmt.Fprintln(os.Stderr, "note:", n)
 		}
 		for _, rr := range ps.Rules {
 			res := rr.Run(p)
